@@ -83,7 +83,14 @@ func decide(ob *Obligation, timeoutS int, all bool, dumpDir string) {
 		return r
 	}
 	var results []solverRes
-	if all {
+	if ob.Expect == "sat" {
+		// reachability (vacuity) probe: a contradiction shows up quickly; a quantified sat answer often never does
+		t := timeoutS
+		if t > 3 {
+			t = 3
+		}
+		results = append(results, runSolver(solvers[0], plain, t))
+	} else if all {
 		var wg sync.WaitGroup
 		rs := make([]solverRes, len(solvers))
 		for i, sc := range solvers {
